@@ -23,6 +23,12 @@ def build_list(cls: str, rows: list[dict], how: str = "items"):
         return L([])
     if how == "df":
         return L(pd.DataFrame(rows))
+    if how == "df_dup_labels":
+        # two frames put together with pd.concat without ignore_index: row labels repeat (0, 1, 0, 1, ...)
+        df = pd.DataFrame(rows)
+        k = max(1, len(df) // 2)
+        df.index = [i % k for i in range(len(df))]
+        return L(df)
     if how == "df_extra":
         # built from a DataFrame that carries a user column besides the declared fields, only partly filled
         df = pd.DataFrame(rows)
